@@ -324,7 +324,8 @@ def check(prog, rep):
     # ---- H2
     b = site.kwargs.get('boundary')
     bt = norm(b) if b is not None else None
-    rep.add('H2', dfun, entry, 'boundary=%s' % bt, site.call.lineno, bt in NAN_TEXTS,
+    from ..astutil import is_nan_expr as _isnan
+    rep.add('H2', dfun, entry, 'boundary=%s' % bt, site.call.lineno, bt in NAN_TEXTS or (b is not None and _isnan(b)),
             'halo cells outside the raster must be NaN (NaN is never a target); reflect/periodic/nearest would invent targets')
     # ---- depth and fallback, on the wrapper terms: helpers (module-level or nested), local names and tuple assignments do
     # not matter
